@@ -37,21 +37,23 @@ structure BankdefAst where
   fill : Bool
 deriving Repr, Inhabited
 
+/-- `ref` fields are the `item_ref`s the declaration/definition passes fill in (`none` after parsing);
+    `file` is the file the node came from (its spans' file handle) -/
 inductive AstNode where
-  | addr (e : Expr)
-  | align (e : Expr)
+  | addr (e : Expr) (ref : Option Nat := none)
+  | align (e : Expr) (ref : Option Nat := none)
   | assert (e : Expr)
-  | bank (name : String)
-  | bankdef (b : BankdefAst)
-  | data (size : Option Nat) (es : List Expr)
-  | fn (name : String) (params : List String) (body : Expr)
+  | bank (name : String) (ref : Option Nat := none)
+  | bankdef (b : BankdefAst) (ref : Option Nat := none)
+  | data (size : Option Nat) (es : List Expr) (refs : List Nat := [])
+  | fn (name : String) (params : List String) (body : Expr) (ref : Option Nat := none)
   | ifDir (cond : Expr) (t : List AstNode) (f : Option (List AstNode))
   | include (file : List Char)
   | once
-  | res (e : Expr)
-  | ruledef (name : Option String) (sub : Bool) (rules : List RuleAst)
-  | instr (src : List Char)
-  | symbol (level : Nat) (name : String) (kind : SymKind) (noEmit : Bool)
+  | res (e : Expr) (ref : Option Nat := none)
+  | ruledef (name : Option String) (sub : Bool) (rules : List RuleAst) (ref : Option Nat := none)
+  | instr (src : List Char) (ref : Option Nat := none)
+  | symbol (level : Nat) (name : String) (kind : SymKind) (noEmit : Bool) (ref : Option Nat := none)
 deriving Repr, Inhabited
 
 end Casm
